@@ -92,7 +92,6 @@ func configureEngine(e *sym.Engine) {
 	e.Natives["go/parser.ParseFile"] = parser.ParseFile
 	e.Natives["go/token.NewFileSet"] = token.NewFileSet
 	e.Natives["go/ast.IsExported"] = ast.IsExported
-	e.Natives["go/ast.Inspect"] = ast.Inspect
 	e.Natives["golang.org/x/tools/go/ast/astutil.PathEnclosingInterval"] = astutil.PathEnclosingInterval
 	// pure standard-library helpers, called natively on concrete arguments (a symbolic argument is refused)
 	for name, f := range map[string]interface{}{
@@ -109,12 +108,14 @@ func configureEngine(e *sym.Engine) {
 		"go/types.ExprString": types.ExprString, "go/types.ObjectString": types.ObjectString, "go/types.Implements": types.Implements,
 		"go/types.IdenticalIgnoreTags": types.IdenticalIgnoreTags, "go/types.Default": types.Default, "go/types.IsInterface": types.IsInterface,
 		"go/types.NewSlice": types.NewSlice, "go/types.AssertableTo": types.AssertableTo, "go/types.Comparable": types.Comparable,
-		"go/ast.NewIdent": ast.NewIdent, "go/ast.Walk": ast.Walk, "go/ast.FilterDecl": ast.FilterDecl,
+		"go/ast.NewIdent": ast.NewIdent,
 	} {
 		e.Natives[name] = f
 	}
 	e.Whitelist["path.Ext"] = true
 	sym.TModeStubs(e.Stubs)
+	sym.LayoutStubs(e.Stubs)
+	e.Natives["go/types.NewTypeName"] = types.NewTypeName
 	e.SkeletonRoot = filepath.Join(verifDir, "skeletons")
 }
 
